@@ -433,7 +433,9 @@ class C09Part(WirePart):
                 elif o.strip() != "EQ 1":
                     bad.append(("%s/%s" % (self.fam, "restore-differs" if hist[i - 1].startswith("fork") else "continue-diverges"), o[:300], i))
             elif op in ("fork", "result"):
-                if o.strip() != "ok":
+                if o.startswith("DIAG "):
+                    bad.append(("%s/%s" % (self.fam, o.split()[1]), "state defect visible through the public API before serialization (%s)" % l, i))
+                elif o.strip() != "ok":
                     bad.append(("%s/%s-throws" % (self.fam, op), o[:120], i))
         return bad
 
@@ -713,7 +715,7 @@ FINDING_RULES = [
      "deserialize leaves marks_[h..] of a gadget uninitialised; get_result() of the restored union swaps them (UBSan invalid bool load)"),
     ("C09", "ebpps/ser-ubsan:serde.hpp:null-pointer-passed-as-argument", {}, "C09-serde-null-memcpy",
      "serialize(bytes) of an EBPPS sample without full items: memcpy(ptr, nullptr, 0)"),
-    ("C09", "ebpps/{k}", dict(k=["restore-bytes-throws", "restore-stream-throws", "fork-throws"]), "C09-ebpps-items-vs-c",
+    ("C09", "ebpps/state-items-ne-floor-c", {}, "C09-ebpps-items-vs-c",
      "reachable EBPPS state (after merge) holds fewer full items than floor(c); its own image is rejected by the reader"),
     ("C11", "countmin/bytes/prefix/asan@cells", {}, "C11-countmin-reader",
      "D8: ensure_minimum_memory omits the 16 preamble bytes; the last 16 prefix lengths read past the buffer"),
@@ -735,12 +737,14 @@ FINDING_RULES = [
     ("C11", "varopt/stream/corrupt{w}/{o}@{fld}", dict(w=W2, o=["alloc_cap", "timeout"], fld=["n", "h_r", "total_wt_r", "weights"]), "C11-serde-string-stream",
      "string serde (stream): unchecked length drives reserve and an unbounded push_back loop"),
     ("C11", "varopt/{p}/corrupt{w}/alloc_cap@pre", dict(p=P2, w=W2), "C11-config-dictated-allocation", "k of an (empty) image dictates the allocation (resize factor X1)"),
+    ("C11", "varopt/stream/corrupt{w}/timeout@pre", dict(w=W2), "C11-serde-string-stream",
+     "gadget flag set on a string-item sketch: the item lengths are read at a shifted position; string serde (stream) loops on an unchecked length"),
     ("C11", "vunion/bytes/prefix/asan@{fld}", dict(fld=["un", "outer_tau_num", "outer_tau_den"]), "C11-varopt-reader",
      "var_opt_union::deserialize(bytes) checks 8 bytes, then reads 24 more: prefixes of length 8..31 are read out of bounds"),
     ("C11", "vunion/{p}/corrupt-word/asan@g.h_r", dict(p=P2), "C11-varopt-reader", "gadget: h + r == k checked in 32 bits (heap WRITE)"),
     ("C11", "vunion/stream/corrupt{w}/{o}@g.{fld}", dict(w=W2, o=["alloc_cap", "timeout"], fld=["n", "h_r", "total_wt_r", "weights", "pre"]), "C11-serde-string-stream",
      "string serde (stream): unchecked length drives reserve and an unbounded push_back loop"),
-    ("C11", "vunion/{p}/corrupt{w}/ubsan@g.pre", dict(p=P2, w=W2), "C11-varopt-reader", "the union accepts a non-gadget sketch image as its gadget: marks_ is null and is dereferenced"),
+    ("C11", "vunion/{p}/corrupt{w}/{o}@g.pre", dict(p=P2, w=W2, o=["ubsan", "asan"]), "C11-varopt-reader", "the union accepts a non-gadget sketch image as its gadget: marks_ is null and is dereferenced"),
     ("C11", "ebpps/stream/prefix/{o}@pre", dict(o=["accept", "accept-other-content", "alloc_cap"]), "C11-ebpps-reader",
      "empty-image branch of deserialize(istream) does not check the stream state: garbage k accepted or reserved"),
     ("C11", "ebpps/{p}/corrupt{w}/{o}@{fld}", dict(p=P2, w=W2, o=["asan", "ubsan"], fld=["cum_wt", "wt_max", "rho", "c"]), "C11-ebpps-reader",
